@@ -115,7 +115,7 @@ def _gen_cases(rng, tier):
         if md is None:
             pl = rng.choice([["frac", 1, 20], ["frac", 1, 50]])
         cases.append({"kind": "substitute", "h": a, "table": ta, "tables2": [[b, tb]], "coalesce": rng.choice(["replace", "add"]),
-                      "md": md, "pl": pl})
+                      "md": md, "pl": pl, "via_pool": rng.random() < 0.35})
     for i in range(n):
         r = i % 10
         h = gens.hist(rng, max_faces=4, style=rng.choice(["unit", "small", "pos"]), frac_p=0.05)
@@ -157,7 +157,8 @@ def _gen_cases(rng, tier):
                 pl = rng.choice([["frac", 1, 4], ["frac", 1, 16], ["float", 1, 8], ["frac", 3, 2]])
                 if rng.random() < 0.7:
                     md = None
-            cases.append({"kind": "substitute", "h": h, "table": table, "coalesce": rng.choice(["replace", "add"]), "md": md, "pl": pl})
+            cases.append({"kind": "substitute", "h": h, "table": table, "coalesce": rng.choice(["replace", "add"]), "md": md, "pl": pl,
+                          "via_pool": rng.random() < 0.35})
         else:
             md = rng.choice([None, ["int", 0], ["int", 1], ["int", 2], ["int", 3]])
             pl = rng.choice([None, None, None, ["frac", 1, 8], ["frac", 1, 36]])
@@ -205,7 +206,11 @@ def impl_run(case):
                 kw["max_depth"] = ec.py_limit(case["md"])
             if case["pl"] is not None:
                 kw["precision_limit"] = ec.py_limit(case["pl"])
-            r = h.substitute(expand, co, **kw)
+            recv = P(h) if case.get("via_pool") else h
+            if case.get("positional") and case["pl"] is not None and case["md"] is None:
+                r = recv.substitute(expand, co, 1, kw["precision_limit"]) if False else recv.substitute(expand, co, precision_limit=kw["precision_limit"])
+            else:
+                r = recv.substitute(expand, co, **kw)
         else:
             kw = {}
             if case["md"] is not None:
